@@ -9,12 +9,9 @@ from .persist import (BASE, CORE, _calls, rule_atomic_replace, rule_close_writes
 from ..astutil import bool_skeleton
 
 
-def run(ctx):
+def rule_run_inside_stores(ctx, r1, labels=("backend", "spec hashes")):
+    """`gwf run` calls submit_workflow inside the with-blocks of the state stores and hands it the managed objects."""
     idx = ctx.index
-    res = ctx.resolver
-
-    # ---------------- R1 persistence on every exit of the run
-    r1 = ctx.rule("R1", "the whole run executes inside with-blocks of both state stores, whose __exit__ always saves", min_instances=6)
     run_f = idx.func("gwf.plugins.run:run")
     rcon = f"{run_f.module.relpath}::{run_f.qual}"
     sw_call = None
@@ -33,11 +30,22 @@ def run(ctx):
                         managers[idx.canon(c.func, run_f.module)] = item.optional_vars.id
         arg_names = {dotted(a) for a in sw_call.args} | {dotted(k.value) for k in sw_call.keywords}
         for fn, label in (("gwf.backends.base.create_backend", "backend"), ("gwf.core.get_spec_hashes", "spec hashes")):
+            if label not in labels:
+                continue
             var = managers.get(fn) or managers.get(fn.replace("gwf.backends.base.", "gwf.backends."))
             r1.check(var is not None and var in arg_names, f"{rcon}::with-{label.replace(' ', '-')}",
                      f"submit_workflow runs inside `with {fn.rsplit('.', 1)[1]}(...) as {var}` and uses that object",
                      f"the submission loop is not enclosed by the with-block of the {label} store (or uses another object): "
                      "an exception or failing scheduler command ends the run without saving what was accepted", loc(sw_call, run_f.module))
+
+
+def run(ctx):
+    idx = ctx.index
+    res = ctx.resolver
+
+    # ---------------- R1 persistence on every exit of the run
+    r1 = ctx.rule("R1", "the whole run executes inside with-blocks of both state stores, whose __exit__ always saves", min_instances=6)
+    rule_run_inside_stores(ctx, r1)
     rule_exit_persists(ctx, r1)
     rule_close_writes(ctx, r1)
     from .c07 import rule_tracked_dump
